@@ -62,6 +62,49 @@ def number_blocks(blocks, start=1):
     return res, n[0]
 
 
+def number_units(kind, units, start=1):
+    """DocGen2 state (tuple of unit shapes) -> writer document with leaves numbered in reading order."""
+    n = [start]
+
+    def nxt():
+        n[0] += 1
+        return n[0] - 1
+
+    def inl(xs):
+        out = []
+        for i in xs:
+            if i[0] == "r":
+                out.append(["r", nxt()])
+            elif i[0] == "a":
+                out.append(["a", inl(i[1])])
+            else:
+                out.append(list(i))
+        return out
+    if kind == "deck":
+        slides = []
+        for u in units:
+            shapes = []
+            for sh in u["shapes"]:
+                if sh[0] == "title":
+                    shapes.append(["title", inl(sh[1])])
+                elif sh[0] in ("body", "text"):
+                    shapes.append([sh[0], [inl(p) for p in sh[1]]])
+                else:
+                    shapes.append(["tbl", [[[inl(p) for p in cell] for cell in row] for row in sh[1]]])
+            slides.append({"shapes": shapes, "notes": inl(u["notes"])})
+        return {"kind": "deck", "slides": slides}
+    if kind == "book":
+        sheets = []
+        for u in units:
+            nid = nxt()
+            sheets.append({"name": word(nid), "name_id": nid,
+                           "rows": [[["s", nxt()] if c else None for c in row] for row in u]})
+        return {"kind": "book", "sheets": sheets}
+    if kind == "pages":
+        return {"kind": "pages", "pages": [[[nxt() for _ in range(cnt)] for cnt in pg] for pg in units]}
+    raise ValueError(kind)
+
+
 def flow_doc(blocks, header=None, footer=None, props=None):
     return {"kind": "flow", "blocks": blocks, "header": header or [], "footer": footer or [], "props": props or {}}
 
